@@ -85,7 +85,7 @@ fn run_call<T: Elem>(fft: &dyn Fft<T>, job: &Job<T>, place: Place) -> CallResult
 }
 
 /// Transform instances obtained through the public constructors (they are `Fft` instances like any other)
-fn constructed<T: Elem>(kind: usize, n: usize, dir: Dir, planner: &mut AnyPlanner<T>) -> (String, Arc<dyn Fft<T>>) {
+pub fn constructed<T: Elem>(kind: usize, n: usize, dir: Dir, planner: &mut AnyPlanner<T>) -> (String, Arc<dyn Fft<T>>) {
     use rustfft::algorithm::*;
     let d = fdir(dir);
     let n = n.max(2);
